@@ -334,6 +334,8 @@ type probeDecor struct {
 	updating atomic.Int32 // EwmaUpdate calls in progress
 }
 
+var probeGlyphs = []string{"x", "世", "x\u0301"}
+
 func (d *probeDecor) Decor(s decor.Statistics) (string, int) {
 	if d.updating.Load() > 0 {
 		d.r.rec(Event{"ev": "overlap", "d": d.name, "b": d.bar, "what": "Decor while EwmaUpdate is running"})
@@ -352,7 +354,8 @@ func (d *probeDecor) Decor(s decor.Statistics) (string, int) {
 	if need < 0 {
 		return d.Format("") // a decorator with nothing to show in this frame still takes part in its column's exchange
 	}
-	return d.Format("(" + d.name + strings.Repeat("x", need) + ")")
+	// the text's display width is not always its number of runes (or bytes): the columns are display columns
+	return d.Format("(" + d.name + strings.Repeat(probeGlyphs[d.spec.Glyph%len(probeGlyphs)], need) + ")")
 }
 
 func (d *probeDecor) Format(s string) (string, int) {
